@@ -47,6 +47,7 @@ type Work struct {
 	Core     string `json:"core"`
 	NoTrail  bool   `json:"no_trail,omitempty"` // no trailing tick(): the wrapped program is the script's last statement
 	Elem     string `json:"elem,omitempty"`     // element type of the channels the blocked cores use (default int64)
+	Deadline bool   `json:"deadline,omitempty"` // the context also carries a deadline far in the future (a WithTimeout context cancelled early)
 	LibCtx   int    `json:"lib_ctx,omitempty"`  // how the earlier run that defined the library was made: 0 cancellable context (never cancelled), 1 context.Background(), 2 vm.Execute, 3 vm.Execute with nil options
 }
 
@@ -454,6 +455,7 @@ func (Prop) Gen(seed int64, tier string) *harness.Case {
 	if strings.HasPrefix(w.Core, "lib-") {
 		w.LibCtx = r.Intn(4)
 	}
+	w.Deadline = r.Intn(4) == 0
 	depth := r.Intn(4)
 	if r.Intn(8) == 0 {
 		depth = 4 + r.Intn(2)
@@ -602,6 +604,9 @@ func run(t *testing.T, c *harness.Case, verbose bool, onlyDefers bool) *harness.
 	leaked := harness.Bubble(t, func() {
 		sim = simrt.New(c.Choices, 2500)
 		ctx = sim.NewCtx()
+		if w.Deadline {
+			ctx.FarDeadline = time.Now().Add(time.Hour)
+		}
 		e := env.NewEnv()
 		rec := func(deferred bool) {
 			tk := simrt.CurTask()
